@@ -318,7 +318,7 @@ pub fn run(ctx: &Ctx) -> PropResult {
         wls.push(sweep("days_all", cal::MIN_DAY, cal::MAX_DAY, 1, false));
     } else {
         wls.push(sweep("days_around_era_boundary", -3 * cyc, 3 * cyc, 1, true));
-        wls.push(sweep("days_1600_2400", cal::days_from_civil(1600, 1, 1), cal::days_from_civil(2400, 12, 31), 1, true));
+        wls.push(sweep("days_1500_2500", cal::days_from_civil(1500, 1, 1), cal::days_from_civil(2500, 12, 31), 1, true));
         wls.push(sweep("days_low_range_end", cal::MIN_DAY, cal::MIN_DAY + 2 * cyc, 1, true));
         wls.push(sweep("days_high_range_end", cal::MAX_DAY - 2 * cyc, cal::MAX_DAY, 1, true));
         // thorough/rel: 1/64 stratified guard against cfg(debug_assertions)-dependent code
